@@ -150,6 +150,11 @@ type endpoint struct {
 	// accelerate indicates that the Scan function should attempt to accelerate
 	// scanning by using data from a background watcher Goroutine.
 	accelerate bool
+	// pollNotifyForced indicates that the next successful scan performed by
+	// watchPoll must strobe the poll signal even if its snapshot equals the
+	// previous polling snapshot, because Transition has changed the disk since
+	// then and those changes may since have been reverted externally.
+	pollNotifyForced bool
 	// recheckPaths is the set of re-check paths to use when accelerating scans
 	// in recursive watching mode. This map will be non-nil if and only if
 	// accelerate is true and recursive watching is being used.
@@ -761,6 +766,8 @@ func (e *endpoint) watchPoll(ctx context.Context, pollingInterval uint32, nonRec
 
 		// Extract scan parameters so that we can release the scan lock.
 		snapshot := e.snapshot
+		forced := e.pollNotifyForced
+		e.pollNotifyForced = false
 
 		// Release the scan lock.
 		e.unlockScanLock()
@@ -790,7 +797,7 @@ func (e *endpoint) watchPoll(ctx context.Context, pollingInterval uint32, nonRec
 
 		// If we've seen modifications, and we're not ignoring them, then strobe
 		// the poll events channel.
-		if modified && !ignoreModifications {
+		if (modified && !ignoreModifications) || forced {
 			// Log the modifications.
 			logger.Debug("Modifications detected")
 
@@ -1421,6 +1428,7 @@ func (e *endpoint) Transition(ctx context.Context, transitions []*core.Change) (
 	// loop when problems are encountered for changes that can never be fully
 	// applied.
 	if e.watchMode == reifiedWatchModePoll && transitionMadeChanges {
+		e.pollNotifyForced = true
 		e.pollSignal.Strobe()
 	}
 
